@@ -24,6 +24,27 @@ def _is_running_load(f, c):
     return False
 
 
+def _line_counter_problem(f, dividend, loops):
+    """None if the dividend of `% n` is the enumerate index of the line loop or a local incremented by one on every pass of the loop body"""
+    os_ = F.origins(f, dividend, depth=12)
+    for lp in loops:
+        if any(o.kind == "call" and o.call is lp.next and re.search(L.ENUM_NEXT, short(o.call.name)) for o in os_):
+            return None
+    for o in os_:
+        if o.kind == "binop" and o.extra in ("Add", "AddWithOverflow", "AddUnchecked"):
+            one = 1 in (o.place["l"].get("int"), o.place["r"].get("int"))
+            if not one:
+                continue
+            # the increment must lie on every path through the body of a line loop
+            for i, st in f.stmts():
+                if st["k"] == "assign" and st["rv"]["k"] == "binop" and st["rv"]["l"] is o.place["l"]:
+                    for lp in loops:
+                        if i in lp.body and PR.all_paths_hit(f, lp.some, [i], stop_blocks={lp.header})[0]:
+                            return None
+    calls = [short(o.call.name) for o in os_ if o.kind == "call"]
+    return "it is derived from %s" % (calls[0] if calls else "a value that is not advanced once per line")
+
+
 def run(R):
     P = R.prog
     R.rule("C19.sample", "in each executor loop the running flag is loaded after the line is read and the load dominates executing and "
@@ -99,7 +120,13 @@ def run(R):
         c = rems[0][1]["rv"]["r"].get("int")
         lps = [l for l in L.input_loops(jf) if l.ok]
         g = PR.bool_guard(jf, loads[0])
-        if c is not None and 0 < c <= 10 and g and lps:
+        cnt_problem = _line_counter_problem(jf, rems[0][1]["rv"]["l"], lps) if lps else None
+        if cnt_problem:
+            R.violation("C19.join", "JoinedTableData::execute|counter", "the sampling interval of the joined-file loop does not count lines read: %s "
+                        "(lines that do not advance it are read without ever sampling the flag)" % cnt_problem,
+                        ["%s:%d" % (jf.file, rems[0][1]["line"])])
+            ok = True
+        elif c is not None and 0 < c <= 10 and g and lps:
             after = jf.reachable_from(g[2])
             if not [x for x in L.consuming_calls(jf) if x.bb in after]:
                 ok = True
